@@ -167,13 +167,15 @@ class Gen:
         return [{'e': 'job_pr', 'pr': p['id']}]
 
 
-def run_history(world, events, on_job=None, on_event=None):
+def run_history(world, events, on_job=None, on_event=None, fault_for=None):
     """Replay a fixed event list.  on_job(world, ev, before_dump, job_record, after_dump) after every job."""
     log = []
     for ev in events:
         if ev['e'].startswith('job_'):
             before = world.dump()
-            rec = world.run_job(ev)
+            fault = fault_for(world, ev, before) if fault_for else None
+            rec = world.run_job(ev, fault=fault)
+            rec['fault'] = fault
             after = world.dump()
             log.append({'ev': ev, 'status': rec['status']})
             if on_job:
@@ -194,7 +196,8 @@ def run_history(world, events, on_job=None, on_event=None):
     return log
 
 
-def generate_and_run(seed, length=14, mode=None, on_job=None, cfg_override=None, max_prs=3, admin_jobs=True):
+def generate_and_run(seed, length=14, mode=None, on_job=None, cfg_override=None, max_prs=3, admin_jobs=True,
+                     fault_for=None):
     """Generate a history while running it (the generator looks at the live refs).  Returns (history, log)."""
     rng = random.Random(seed)
     cfg = gen_cfg(rng, mode)
@@ -214,7 +217,7 @@ def generate_and_run(seed, length=14, mode=None, on_job=None, cfg_override=None,
                 continue
             for ev in evs:
                 events.append(ev)
-                sub = run_history(world, [ev], on_job=on_job)
+                sub = run_history(world, [ev], on_job=on_job, fault_for=fault_for)
                 log.extend(sub)
                 if ev['e'] == 'create_pr' and 'pr' in sub[0].get('res', {}):
                     gen.prs[-1]['id'] = sub[0]['res']['pr']
@@ -224,15 +227,15 @@ def generate_and_run(seed, length=14, mode=None, on_job=None, cfg_override=None,
     return {'cfg': cfg, 'events': events, 'seed': seed}, log
 
 
-def replay(history, on_job=None):
+def replay(history, on_job=None, fault_for=None):
     world = sysworld.World(history['cfg'])
     try:
-        return run_history(world, history['events'], on_job=on_job)
+        return run_history(world, history['events'], on_job=on_job, fault_for=fault_for)
     finally:
         world.close()
 
 
-def lifecycle_and_run(seed, on_job=None, mode=None, cfg_override=None, n_prs=None):
+def lifecycle_and_run(seed, on_job=None, mode=None, cfg_override=None, n_prs=None, fault_for=None):
     """'Happy path' family: several pull requests opened before any is merged (so later ones are behind their
     destination), then each is driven to its merge in a random order with mostly green builds.  Produces many
     destination movements with non-fast-forward first targets, queue merges of several pull requests, etc."""
@@ -246,7 +249,7 @@ def lifecycle_and_run(seed, on_job=None, mode=None, cfg_override=None, n_prs=Non
 
     def do(ev):
         events.append(ev)
-        sub = run_history(world, [ev], on_job=on_job)
+        sub = run_history(world, [ev], on_job=on_job, fault_for=fault_for)
         log.extend(sub)
         return sub[0]
     try:
